@@ -52,11 +52,18 @@ impl From<&str> for OpErr {
 }
 
 pub fn err_kind(e: &Error) -> String {
-    let d = format!("{:?}", e.details());
+    // `Details` has no public discriminant name and its Debug prints the message, so the kind is
+    // the fixed leading words of the message template (cut at the first interpolated part).
+    let d = e.to_string();
     let end = d
-        .find(|c: char| !(c.is_alphanumeric() || c == '_'))
+        .find(|c: char| !(c.is_ascii_alphabetic() || c == ' ' || c == '-' || c == '\''))
         .unwrap_or(d.len());
-    d[..end].to_string()
+    let words: Vec<&str> = d[..end].split_whitespace().take(6).collect();
+    if words.is_empty() {
+        "Error".to_string()
+    } else {
+        words.join("-")
+    }
 }
 
 pub fn err_json(e: &Error) -> J {
@@ -556,9 +563,11 @@ pub fn run(script: &str, events: &str) -> i32 {
         let _ = writeln!(out, "{}", json!({"id": id, "call": name}));
         let _ = out.flush();
         crate::alloc::reset();
+        let c0 = thread_cpu_ns();
         let res = guard(|| ctx.op(&name, &o));
+        let cpu_us = (thread_cpu_ns().saturating_sub(c0)) / 1000;
         let st = crate::alloc::stats();
-        let al = json!({"max": st.max_req, "peak": st.peak_live_delta, "n": st.n});
+        let al = json!({"max": st.max_req, "peak": st.peak_live_delta, "n": st.n, "cpu_us": cpu_us});
         let ev = match res {
             Ok(Ok(v)) => json!({"id": id, "ok": v, "alloc": al}),
             Ok(Err(OpErr::Lib(e))) => json!({"id": id, "err": err_json(&e), "alloc": al}),
@@ -569,4 +578,27 @@ pub fn run(script: &str, events: &str) -> i32 {
     }
     let _ = out.flush();
     0
+}
+
+#[repr(C)]
+struct Timespec {
+    tv_sec: i64,
+    tv_nsec: i64,
+}
+
+unsafe extern "C" {
+    fn clock_gettime(clk: i32, ts: *mut Timespec) -> i32;
+}
+
+/// CPU time consumed by the calling thread (CLOCK_THREAD_CPUTIME_ID): advances only while the
+/// thread is scheduled, so verdicts based on it do not depend on machine load.
+pub fn thread_cpu_ns() -> u64 {
+    let mut ts = Timespec {
+        tv_sec: 0,
+        tv_nsec: 0,
+    };
+    unsafe {
+        clock_gettime(3, &mut ts);
+    }
+    (ts.tv_sec as u64) * 1_000_000_000 + ts.tv_nsec as u64
 }
